@@ -34,7 +34,7 @@ for p in props:
         },
         "level_note": ("decides clauses " + clauses + " (necessary conditions), not the behaviour; trusted: "
                        + "; ".join(getattr(mod, "TRUSTED", [])) + ". assumes: " + "; ".join(getattr(mod, "ASSUMPTIONS", []))),
-        "technique": getattr(mod, "TECHNIQUE", "custom ast-based static checker (clause rules over syntax tree, CFG, call graph, finite-domain folding)"),
+        "technique": getattr(mod, "TECHNIQUE", "custom ast-based static checker: clause rules over the normalised syntax tree, CFG / dominators, call graph, dataflow (taint, def-use), dimension typing, decision tables and abstract interpretation of source fragments over finite symbolic domains (no execution of repository code)"),
     })
 manifest = {
     "version": 1,
@@ -49,7 +49,7 @@ manifest = {
     "engines": [{
         "name": "sa", "path": "/verif/sa",
         "serves_properties": [c["property_id"] for c in checks],
-        "kind_free_text": "repository-specific static analyser: ast source index, dependency-source facts, CFG + reachability queries, call graph with registries, affine/relational normal forms, dataclass-semantics model, finite-domain evaluator",
+        "kind_free_text": "repository-specific static analyser: ast source index with a behaviour-preserving normalising front end, dependency-source facts, CFG + reachability queries, call graph with registries, affine/relational normal forms, dataclass-semantics model, dimension typing, decision tables, abstract evaluator over symbolic domains, rejection-condition tables",
     }],
     "checks": checks,
     "not_applicable": na,
